@@ -72,6 +72,7 @@ def table(D, E, ck):
                         nd = [[r.randint(lo, hi) for _ in range(prod(s))]]
                         cases.append(dict(op="mean", shapes=[s], args=dict(af, initial=[], keepdims="F", mul=n, etype=et), data=nd))
                         cases.append(dict(op="var", shapes=[s], args=dict(af, initial=[], keepdims="F", mul=n * n, n=n, etype=et), data=nd))
+                        cases.append(dict(op="sum", shapes=[s], args=dict(af, initial=[], keepdims="F", etype=et, dtype=r.choice(["i32", "i64", "f64"])), data=nd))
                 cases.append(dict(op="vector_norm", shapes=[s], args=dict(af, initial=[], keepdims="F", mul=1), data=dat))
             for ax in range(-d, d):
                 for op in ACC:
@@ -117,6 +118,7 @@ def run(tier, seed):
                "non-trivial = distinct (op, shape, args) with source dim >= 2")
     ck.exhaustive = True
     ck.extra.update(table_cases=len(tab), seeded_cases=len(extra))
+    ck.assumptions += ["sum / prod without a dtype fold in the source element type (C++ semantics: an int8 sum wraps where NumPy widens to the platform integer); narrow sources are therefore driven with an explicit wider dtype for sum and with dtype absent for mean / var, whose definition accumulates in floating point"]
     ck.assumptions += ["real-valued results are compared after scaling to the exact integer the definition gives (tolerance 1e-6 relative in the driver's rounding)",
                        "bitwise/logical reducers and trace are not driven in this tier"]
     for c in cases[:2] + cases[-2:]: ck.sample(c)
